@@ -997,19 +997,22 @@ static void pf_describe(const struct pstream *s, const uint8_t *fault, const uin
 }
 
 /* Would no receiver notice the loss when the next packet arrives?  lost[i]: packet never
- * seen as ours (dropped / address unreadable); bad[i]: seen, but with an unreadable byte. */
+ * seen as ours (dropped / address unreadable); bad[i]: seen, but with an unreadable byte:
+ * 1 = before any block data is used (header fields, BP), 2 = somewhere in the block data
+ * (a row that has the expected number is first used up to that byte). */
 static int pf_undetectable(const struct pstream *s, const uint8_t *lost, const uint8_t *bad)
 {
         int synced = 0, gap = 0, epage = 0, enum_ = 0;  /* expectation: row enum_ of page epage, enum_ == 0: header of page epage */
         for (int i = 0; i < s->npk; i++) {
                 const struct ppkt *x = &s->pk[i];
                 if (lost[i]) { gap = 1; continue; }
-                if (bad[i]) { synced = 0; gap = 0; continue; }
+                if (bad[i] == 1) { synced = 0; gap = 0; continue; }
                 if (synced) {
                         int match = enum_ ? (x->num == enum_) : (x->num == 0 && ((x->page - epage) & 15) == 0);
                         if (match && gap) return 1;
                         if (!match && x->num) { synced = 0; gap = 0; continue; }
                 } else if (x->num) { gap = 0; continue; }
+                if (bad[i]) { synced = 0; gap = 0; continue; }
                 /* x is accepted (header or expected row): what comes next */
                 synced = 1; gap = 0;
                 if (x->num < page_len(s->npkmode, x->page)) { epage = x->page; enum_ = x->num + 1; }
@@ -1034,7 +1037,7 @@ static int pfc_eval(const struct pstream *s, const uint8_t *fault, const uint8_t
                 int c = pf_fault_col(s, i, fault[i]);
                 if (c < 0) return 0;            /* no such byte in this packet: same as no fault, explored elsewhere */
                 anyfault = 1; if (i < firstfault) firstfault = i;
-                if (fault[i] == 1 || c < 2) lost[i] = 1; else bad[i] = 1;
+                if (fault[i] == 1 || c < 2) lost[i] = 1; else bad[i] = (s->pk[i].num && c > 2) ? 2 : 1;
                 lostcol[i] = c < 3 ? 0 : c;
         }
         if (anyfault && pf_undetectable(s, lost, bad)) { mc_count("pfc_undetectable_loss_patterns_skipped", 1); return 0; }
